@@ -217,7 +217,7 @@ package message
 
 //@ type handler
 //@   self h
-//@   ownschan startedCh, stopped
+//@   ownschan startedCh(Router.handlersLock), stopped
 
 //@ spec routerBuilt(r *Router) bool := r != nil && r.handlersLock != nil && r.handlersWg != nil && r.runningHandlersWg != nil && r.runningHandlersWgLock != nil && r.middlewaresLock != nil && r.handlerAdded != nil && r.closingInProgressCh != nil && r.closedCh != nil && r.running != nil
 
@@ -489,6 +489,7 @@ package message
 //@ func (*Router).Run
 //@   requires r != nil && ctx != nil && routerBuilt(r)
 //@   requires !r.isRunning ==> !closed(r.running) [running-is-closed-only-by-Run]
+//@   ghost owns r.running
 //@   requires forall i int :: 0 <= i && i < len(r.plugins) ==> r.plugins[i] != nil
 //@   requires forall i int :: 0 <= i && i < len(r.publisherDecorators) ==> r.publisherDecorators[i] != nil
 //@   requires forall i int :: 0 <= i && i < len(r.subscriberDecorators) ==> r.subscriberDecorators[i] != nil
